@@ -139,7 +139,7 @@ func runC18(c *h.Ctx) {
 
 	// ---- (b) SkipGo vs SkipNative --------------------------------------------------------------------
 	c.Run("skip", c.N(1500, 60000), func(cs *h.Case) {
-		sc := gen.GenSchema(cs.R, gen.Cfg{MaxDepth: 3, MaxFields: 6, StructKeys: true, BigIDs: true})
+		sc := gen.GenSchema(cs.R, gen.Cfg{MaxDepth: 3, MaxFields: 6, StructKeys: true, BigIDs: true, Typedefs: true})
 		v := gen.GenVal(cs.R, structType(sc.Root), gen.ValCfg{NonFinite: true, InvalidUTF8: true, ShuffleFlds: true}, 0)
 		b := tref.Encode(v)
 		var nodes []*tref.Val
